@@ -132,10 +132,10 @@ func c02header(ns string) string {
 }
 
 type c02res struct {
-	kind           string
-	id, typ, from  string
-	err            bool
-	panicked       string
+	kind          string
+	id, typ, from string
+	err           bool
+	panicked      string
 }
 
 func c02attrs(p Packet) (id, typ, from string) {
@@ -450,9 +450,79 @@ func TestVerifC02(t *testing.T) {
 			}})
 		}
 	}
+	for _, ns := range []string{NSClient, NSComponent} {
+		ns := ns
+		scs = append(scs, hx.Scenario{Name: "stalled-reader/" + ns, Run: func(c *hx.Ctx) { c02stallScenario(c, ns) }})
+	}
 	scs = append(scs, c02deepScenarios()...)
 	scs = append(scs, c02treeScenarios()...)
 	if hx.Main("C02", scs) == 2 {
 		t.Fatal("internal error")
 	}
+}
+
+// A reader that has nothing more to give and says so by returning (0, nil), call after call: bufio gives up after
+// 100 such reads (io.ErrNoProgress). Reading the stream must then end with an error, not go round in circles.
+type c02stall struct {
+	data  string
+	reads int
+	empty int
+}
+
+func (s *c02stall) Read(p []byte) (int, error) {
+	s.reads++
+	if s.data == "" {
+		s.empty++
+		if s.empty > 100000 {
+			return 0, io.ErrUnexpectedEOF // the harness's own bound, far beyond what any reader loop needs
+		}
+		return 0, nil
+	}
+	n := copy(p, s.data)
+	s.data = s.data[n:]
+	return n, nil
+}
+
+func c02stallScenario(c *hx.Ctx, ns string) {
+	alpha := c02alphabet(ns)
+	for _, el := range alpha {
+		// the reader stalls behind a complete element, inside the next start tag, and inside the next element's content
+		for _, tail := range []string{"", "<message id='cut'", "<message id='cut'><body>te"} {
+			doc := c02header(ns) + el.xml + tail
+			in := fmt.Sprintf("%s followed by %q, then a reader that keeps returning (0, nil)", el.name, tail)
+			c.Beat("C02|no-termination|stalled-reader", in)
+			r := &c02stall{data: doc}
+			d := xml.NewDecoder(r)
+			c.Step(1)
+			if _, err := InitStream(d); err != nil {
+				c.Fail("C02|stream-open-rejected", in, "%s: InitStream failed", in)
+				continue
+			}
+			var kinds []string
+			ended := false
+			for i := 0; i < 4; i++ {
+				p, err := NextPacket(d)
+				if err != nil {
+					ended = true
+					break
+				}
+				kinds = append(kinds, reflect.TypeOf(p).String())
+			}
+			c.Eval(fmt.Sprint(el.name, tail, kinds, ended, r.empty > 100000))
+			if !ended {
+				c.Fail("C02|stalled-reader-yields-packets", in, "%s: packets %v and still no error", in, kinds)
+			}
+			if r.empty > 100000 {
+				c.Fail("C02|unbounded-reads|stalled-reader", in, "%s: the reader was called more than 100000 times after it had nothing left", in)
+			}
+			want := 0
+			if el.kind != "" {
+				want = 1
+			}
+			if len(kinds) > want {
+				c.Fail("C02|incomplete-element-delivered|stalled-reader", in, "%s: packets %v", in, kinds)
+			}
+		}
+	}
+	c.Sample(map[string]string{"reader": "complete element, then (0, nil) for ever", "ns": ns})
 }
